@@ -11,6 +11,7 @@ type Locker interface {
 type Mutex struct {
 	held  bool
 	owner int
+	hb    vrt.SyncClock
 }
 
 // UnlockHook, when set, is called right after a mutex was released (harness observation point; not a
@@ -25,6 +26,7 @@ func (m *Mutex) Lock() {
 	rt.Block(func() bool { return !m.held })
 	m.held = true
 	m.owner = vrt.CurThread().ID
+	vrt.HBAcquire(&m.hb)
 }
 
 func (m *Mutex) TryLock() bool {
@@ -35,6 +37,7 @@ func (m *Mutex) TryLock() bool {
 	}
 	m.held = true
 	m.owner = vrt.CurThread().ID
+	vrt.HBAcquire(&m.hb)
 	return true
 }
 
@@ -45,6 +48,7 @@ func (m *Mutex) Unlock() {
 	if !m.held {
 		panic("sync: unlock of unlocked mutex")
 	}
+	vrt.HBRelease(&m.hb)
 	m.held = false
 	if UnlockHook != nil {
 		UnlockHook(m)
@@ -58,8 +62,9 @@ func (m *Mutex) Unlock() {
 func (m *Mutex) Held() bool { return m.held }
 
 type RWMutex struct {
-	w bool
-	r int
+	w        bool
+	r        int
+	hbW, hbR vrt.SyncClock
 }
 
 func (m *RWMutex) Lock() {
@@ -67,6 +72,8 @@ func (m *RWMutex) Lock() {
 	rt.Point(vrt.KMutex)
 	rt.Block(func() bool { return !m.w && m.r == 0 })
 	m.w = true
+	vrt.HBAcquire(&m.hbW)
+	vrt.HBAcquire(&m.hbR)
 }
 func (m *RWMutex) Unlock() {
 	if vrt.R.Killing() {
@@ -75,6 +82,7 @@ func (m *RWMutex) Unlock() {
 	if !m.w {
 		panic("sync: Unlock of unlocked RWMutex")
 	}
+	vrt.HBRelease(&m.hbW)
 	m.w = false
 }
 func (m *RWMutex) RLock() {
@@ -82,6 +90,7 @@ func (m *RWMutex) RLock() {
 	rt.Point(vrt.KMutex)
 	rt.Block(func() bool { return !m.w })
 	m.r++
+	vrt.HBAcquire(&m.hbW)
 }
 func (m *RWMutex) RUnlock() {
 	if vrt.R.Killing() {
@@ -90,12 +99,19 @@ func (m *RWMutex) RUnlock() {
 	if m.r <= 0 {
 		panic("sync: RUnlock of unlocked RWMutex")
 	}
+	vrt.HBRelease(&m.hbR)
 	m.r--
 }
 
-type WaitGroup struct{ n int }
+type WaitGroup struct {
+	n  int
+	hb vrt.SyncClock
+}
 
 func (w *WaitGroup) Add(d int) {
+	if d < 0 {
+		vrt.HBRelease(&w.hb)
+	}
 	w.n += d
 	if w.n < 0 && !vrt.R.Killing() {
 		panic("sync: negative WaitGroup counter")
@@ -106,13 +122,20 @@ func (w *WaitGroup) Wait() {
 	rt := vrt.R
 	rt.Point(vrt.KMutex)
 	rt.Block(func() bool { return w.n <= 0 })
+	vrt.HBAcquire(&w.hb)
 }
 
-type Once struct{ done bool }
+type Once struct {
+	done bool
+	hb   vrt.SyncClock
+}
 
 func (o *Once) Do(f func()) {
 	if !o.done {
 		o.done = true
 		f()
+		vrt.HBRelease(&o.hb)
+		return
 	}
+	vrt.HBAcquire(&o.hb)
 }
